@@ -238,3 +238,31 @@ def tag_facts(ctx, rid):
                     ok = True
         R.check(rid, ok, f"tag node {what} its description under the metadata tag name", node=fi.node,
                 function=ctx.fq(fi), mod=fi.module, expected="_metadata.tag.name", found="not recognised")
+
+
+def serializer_options(ctx, rid, modnames, floor, why):
+    """Every cbor2.dump / dumps in the named modules is called with the default encoder options: canonical=True, a custom default
+    or datetime options re-order map keys / re-encode values of data that must be passed through unchanged."""
+    from sa.index import walk_no_nested
+    R = ctx.report
+    repo = ctx.repo
+    R.rule(rid, floor, "cbor2.dump(s) is called without options (definite lengths, non-canonical, key order kept)")
+    n_sites = 0
+    for mname in modnames:
+        m = repo.mod(mname)
+        for f in m.functions.values():
+            for n in walk_no_nested(f.node):
+                if not isinstance(n, ast.Call):
+                    continue
+                r = repo.resolve_expr(m, n.func)
+                if not (r and r[0] == "ext" and r[1] in ("cbor2.dump", "cbor2.dumps", "cbor2.encoder.dump", "cbor2.encoder.dumps")):
+                    continue
+                n_sites += 1
+                want = 2 if r[1].endswith("dump") else 1
+                kws = [k.arg or "**" for k in n.keywords]
+                R.check(rid, not kws and len(n.args) == want and not any(isinstance(a, ast.Starred) for a in n.args),
+                        f"{ctx.fq(f)}: {ast.unparse(n)[:60]}", mod=m, node=n, function=ctx.fq(f),
+                        expected=f"default encoder options: {why}", found=f"options {kws or 'extra positional arguments'}",
+                        key_extra=ast.unparse(n.func))
+    if n_sites < floor:
+        raise AnalysisError(f"only {n_sites} cbor2.dump(s) sites found in {modnames} (resolver lost them)")
